@@ -235,8 +235,15 @@ class CollectionMerge(Contract):
 
     def raises(self, cx, ex):
         strict = cx.a['strict']
+        # the error that leaves is the failing message's own (as in a hand fold): the very exception `ro += mo` raised,
+        # or one of the same class raised from it - a completed running order must surface as MosCompletedMergeError
+        v = ex.value
+        add = 'contract mosromgr.mostypes.RunningOrder.__add__'
+        src = v if str(getattr(v, 'origin', '')).startswith(add) else getattr(v, 'cause', None)
+        same = isinstance(src, SExc) and str(src.origin).startswith(add) and src.name() == v.name()
         return [('C09+C12.only_a_merge_error_in_strict_mode_stops_the_collection_merge',
-                 A(z3.BoolVal(exc_isinstance(ex.value.cls, 'MosMergeError')), strict.t))]
+                 A(z3.BoolVal(exc_isinstance(ex.value.cls, 'MosMergeError')), strict.t)),
+                ('C07+C09.strict_mode_lets_the_error_class_of_the_failing_message_escape', z3.BoolVal(bool(same)))]
 
 
 # ------------------------------------------------------------------ validation (C11)
